@@ -570,6 +570,61 @@ func c03Core(c *Ctx) bool {
 // c03Plumbing: R5-R6 (reset before optimising, level plumbing).
 func c03Plumbing(c *Ctx) {
 	// ---- R5 fresh facts per compilation unit
+	c.rule("C03-R13", "ORD: a loop's condition is evaluated before its body, so it is optimised with the facts that hold on entry: in the loop arms of OptimizeStatements the condition (WhileStatement.Condition) is handed to OptimizeExpression before the body is handed to OptimizeStatements - optimised afterwards it is folded with what the body's last statement left behind (`while again { ...; again = false }` becomes `while false`, `while cur != 0 { ...; cur = next }` tests next on entry)")
+	if os := c.mustFn("C03-R13", compilerPkg, "Optimizer.OptimizeStatements"); os != nil {
+		fromField := func(v ssa.Value, typ, field string) bool {
+			return derivesFrom(v, func(z ssa.Value) bool {
+				switch y := z.(type) {
+				case *ssa.UnOp:
+					return loadedFromField(y, typ, field)
+				case *ssa.Field:
+					if nt := namedOf(y.X.Type()); nt != nil && nt.Obj().Name() == typ {
+						return nt.Underlying().(*types.Struct).Field(y.Field).Name() == field
+					}
+				}
+				return false
+			})
+		}
+		n := 0
+		for _, typ := range []string{"WhileStatement"} {
+			var conds, bodies []ssa.Instruction
+			eachInstr(os, func(_ *ssa.BasicBlock, _ int, ins ssa.Instruction) {
+				cl, ok := ins.(*ssa.Call)
+				if !ok || len(cl.Call.Args) < 2 {
+					return
+				}
+				switch callName(cl) {
+				case modPath + "/" + compilerPkg + ".Optimizer.OptimizeExpression":
+					if fromField(cl.Call.Args[1], typ, "Condition") {
+						conds = append(conds, ins)
+					}
+				case modPath + "/" + compilerPkg + ".Optimizer.OptimizeStatements":
+					if fromField(cl.Call.Args[1], typ, "Body") {
+						bodies = append(bodies, ins)
+					}
+				}
+			})
+			for k, cd := range conds {
+				n++
+				bad := false
+				var bp []*ssa.BasicBlock
+				for _, bd := range bodies {
+					q := &pathQuery{fn: os, target: func(x ssa.Instruction) bool { return x == cd }, stop: func(x ssa.Instruction) bool {
+						// the next statement of the list (another trip round the statement loop) is another loop
+						_, isNext := x.(*ssa.Next)
+						return isNext
+					}}
+					if h, p := q.after(bd); h != nil {
+						bad, bp = true, p
+					}
+				}
+				c.ob("C03-R13", fnKey(os)+"#"+typ+"-condition-optimised-before-its-body-"+itoa(k+1), cd.Pos(), !bad && len(bodies) > 0, "the loop condition is optimised after the loop body: it is folded with the facts that hold after the body's last statement, which are right when the loop re-tests but wrong on entry", c.blockPath(bp)...)
+			}
+		}
+		c.Sites["C03-R13#loop-conditions"] = n
+		c.floor("C03-R13", 1)
+	}
+
 	c.rule("C03-R5", "MPT: Compiler.Reset re-creates the optimiser's fact maps (assigns a new Optimizer or re-makes all three maps), and every Compile* entry point that calls OptimizeStatements calls Reset first: facts never flow from one compiled unit into the next compiled by the same Compiler")
 	if rs := c.mustFn("C03-R5", compilerPkg, "Compiler.Reset"); rs != nil {
 		fresh := false
